@@ -186,7 +186,7 @@ def acctURL : String := "acct"
 def accountKID (cfg : Cfg) (st : St) : St × Bool :=
   if st.kid then (st, true) else
   match postLoop cfg resolveJWK acctURL [200] 0 st with
-  | (st, .ok _) => ({ st with kid := true }, true)
+  | (st, .ok p) => if p.body == "bad" then (st, false) else ({ st with kid := true }, true)   -- responseAccount must decode
   | (st, .error _) => (st, false)
 
 /-- `Client.post` with `key == nil` (account key, KID form when known) or with an explicit key -/
@@ -225,6 +225,7 @@ structure Simple where
   url : String
   ok : List Nat
   decode : Bool               -- a 2xx body that is not JSON is an error
+  okStates : List String := [] -- if non-empty: the decoded object must be in one of these states
   soft : String := ""         -- this problem type of an error reply …
   softErr : Option Err := none --   … becomes this error (none = success)
 deriving DecidableEq, Repr
@@ -248,12 +249,18 @@ deriving DecidableEq, Repr
 /-- the `status` member of a body token -/
 def bodyStatus (b : String) : String := (b.splitOn "/").headD ""
 
+/-- does the body token name this optional member? -/
+def hasMember (b k : String) : Bool := ((b.splitOn "/").drop 1).any fun m => (m.splitOn "=").headD "" == k
+
 def kidURL : String := "acct/1"
 
 def runSimple (cfg : Cfg) (s : Simple) (st : St) : St × Outcome :=
   let go (url : String) (st : St) : St × Outcome :=
     match post cfg s.explicitKey url s.ok st with
-    | (st, .ok p) => if s.decode && p.body == "bad" then (st, .err .other) else (st, if s.decode then .okBody p.body else .ok)
+    | (st, .ok p) =>
+      if s.decode && p.body == "bad" then (st, .err .other)
+      else if s.decode && !s.okStates.isEmpty && !s.okStates.contains (bodyStatus p.body) then (st, .err .other)
+      else (st, if s.decode then .okBody p.body else .ok)
     | (st, .error (.status c pr)) =>
       if s.soft != "" && pr == s.soft then
         (st, match s.softErr with | none => .ok | some e => .err e)
@@ -261,7 +268,7 @@ def runSimple (cfg : Cfg) (s : Simple) (st : St) : St × Outcome :=
     | (st, .error e) => (st, .err e)
   if s.needKid then
     match accountKID cfg st with
-    | (st, true) => go kidURL st
+    | (st, true) => go s.url st
     | (st, false) => (st, .err .noAccount)
   else go s.url st
 
@@ -307,10 +314,37 @@ def runCall (cfg : Cfg) (st : St) (c : Call) : St × Outcome :=
         | (st, .okBody b) =>
           if bodyStatus b != "valid" then (st, .err .invalid)
           else
-            match post cfg false "cert" [200] st with
-            | (st, .ok q) => if q.body == "bad" then (st, .err .other) else (st, .okBody q.body)
+            -- `o.CertURL` is whatever the final order object said (nothing, if the member is missing);
+            -- the scripted CA serves a PEM chain at its certificate URL only
+            let certURL := if hasMember b "crt" then "cert" else ""
+            match post cfg false certURL [200] st with
+            | (st, .ok q) => if q.body == "bad" || certURL != "cert" then (st, .err .other) else (st, .okBody q.body)
             | (st, .error e) => (st, .err e)
         | r => r
+
+/-- the signing methods of `acme.Client`, by the letters of the op line -/
+def apiTable : List (String × Call) :=
+  let pd := "urn:ietf:params:acme:error:"
+  [ ("D", .discover), ("N", .register), ("W", .waitAuthz), ("V", .waitOrder), ("X", .createOrderCert),
+    ("R", .simple { explicitKey := false, needKid := false, url := "authz", ok := [200], decode := false }),        -- RevokeAuthorization
+    ("O", .simple { explicitKey := false, needKid := false, url := "order", ok := [201], decode := true }),         -- AuthorizeOrder
+    ("A", .simple { explicitKey := false, needKid := false, url := "chal", ok := [200, 202], decode := true }),     -- Accept
+    ("G", .simple { explicitKey := false, needKid := false, url := "authz", ok := [200], decode := true }),         -- GetAuthorization
+    ("Q", .simple { explicitKey := false, needKid := false, url := "order", ok := [200], decode := true }),         -- GetOrder
+    ("C", .simple { explicitKey := false, needKid := false, url := "chal", ok := [200, 202], decode := true }),     -- GetChallenge
+    ("F", .simple { explicitKey := false, needKid := false, url := "cert", ok := [200], decode := true }),          -- FetchCert
+    ("L", .simple { explicitKey := false, needKid := false, url := "cert", ok := [200], decode := false }),         -- ListCertAlternates
+    ("U", .simple { explicitKey := false, needKid := true, url := kidURL, ok := [200], decode := true }),           -- UpdateReg
+    ("T", .simple { explicitKey := false, needKid := true, url := kidURL, ok := [200], decode := false }),          -- DeactivateReg
+    ("Y", .simple { explicitKey := false, needKid := true, url := "keychange", ok := [200], decode := false }),     -- AccountKeyRollover
+    ("E", .simple { explicitKey := true, needKid := false, url := acctURL, ok := [200], decode := true,
+                    soft := pd ++ "accountDoesNotExist", softErr := some .noAccount }),                             -- GetReg
+    ("K", .simple { explicitKey := true, needKid := false, url := "revoke", ok := [200], decode := false,
+                    soft := pd ++ "alreadyRevoked" }),                                                              -- RevokeCert(key)
+    ("k", .simple { explicitKey := false, needKid := false, url := "revoke", ok := [200], decode := false,
+                    soft := pd ++ "alreadyRevoked" }),                                                              -- RevokeCert(nil)
+    ("Z", .simple { explicitKey := false, needKid := false, url := "newauthz", ok := [201], decode := true,
+                    okStates := ["pending", "valid"] }) ]                                                           -- Authorize
 
 def runCalls (cfg : Cfg) (st : St) : List Call → St × List Outcome
   | [] => (st, [])
